@@ -362,6 +362,28 @@ def task_types():
             detail = "%s instead of ValueError" % type(e).__name__
         out.append(ob("%s:non-numeric[%s]" % (fn, label), fn, PROVED if ok else FAILED, "B", "fixed-table", 0.0, detail,
                       None if ok else dict(kind="c03.types", label=label), {"label": label}))
+    # non-numeric nodes given to insertion / removal (method, augmented and plain operator forms): ValueError, object unchanged
+    F_ = Fraction
+    bad_nodes = {"str": ["a"], "None": [None], "nested": [[F_(1)]], "digit-string": "1", "mixed": [F_(1), "x"]}
+    forms = {"insert": lambda k, x: k.insert(x), "remove": lambda k, x: k.remove(x), "+=": lambda k, x: k.__iadd__(x), "-=": lambda k, x: k.__isub__(x),
+             "+": lambda k, x: k + x, "-": lambda k, x: k - x}
+    for nl, nodes in bad_nodes.items():
+        for fl, f in forms.items():
+            if nl == "digit-string" and fl not in ("insert", "remove"):
+                continue        # `k += "1"`: the operators decide shift-or-insert by float(other); a digit string is then a (refused) SHIFT, which the property does not assign an exception class
+            k = KV([F_(0), F_(0), F_(1), F_(2), F_(2)])
+            before = (tuple(k), k.degree, k.npts)
+            try:
+                f(k, nodes)
+                ok, detail = False, "accepted"
+            except ValueError:
+                ok, detail = True, "ValueError"
+            except Exception as e:
+                ok, detail = False, "%s instead of ValueError" % type(e).__name__
+            if ok and (tuple(k), k.degree, k.npts) != before:
+                ok, detail = False, "ValueError, but the vector changed"
+            out.append(ob("knotspace.KnotVector.insert:non-numeric-nodes[%s,%s]" % (fl, nl), "knotspace.KnotVector.insert", PROVED if ok else FAILED, "B", "fixed-table", 0.0, detail,
+                          None if ok else dict(kind="c03.badnodes", form=fl, nodes=nl), {"label": nl}))
     return out
 
 
@@ -481,6 +503,9 @@ def replay(o):
         v = [F(x) for x in w["vector"]]
         k = KV(list(v))
         return tuple(k.knots) != spec.knots_of(v), dict(vector=v, distinct_values=spec.knots_of(v)), dict(knots=tuple(k.knots))
+    if kind == "c03.badnodes":
+        r = [x for x in task_types() if "id" in x and x["id"].endswith("non-numeric-nodes[%s,%s]" % (w["form"], w["nodes"]))][0]
+        return r["status"] == FAILED, "ValueError and the vector unchanged", r["detail"]
     if kind == "c03.types":
         arg = dict(TYPE_TABLE)[w["label"]]
         try:
